@@ -111,8 +111,10 @@ def stacked(env: Any) -> Any:
     from jumanji.wrappers import Wrapper
 
     class KeyFoldWrapper(Wrapper):
+        fold = 977   # a Python attribute read when `reset` is traced: the user may change it between phases and re-jit
+
         def reset(self, key):  # type: ignore[override]
-            return self._env.reset(jax.random.fold_in(key, 977))
+            return self._env.reset(jax.random.fold_in(key, self.fold))
 
     return KeyFoldWrapper(env)
 
